@@ -28,7 +28,7 @@ def run(ctx):
         lines.append(pathterms.weights_line(path, rg, info, alphas))
         meta.append((path, info, rg, alphas))
     answers = ctx.drive(lines) if ctx.lean.driver_ok and not ctx.oracle_only else [None] * len(lines)
-    for (path, info, rg, alphas), l, a in zip(meta, lines, answers):
+    for case_no, ((path, info, rg, alphas), l, a) in enumerate(zip(meta, lines, answers)):
         n = path.numinterfaces
         cj = {"op": "reverse_terms", "points": [p.tolist() for p in info["points"]], "vels": info["vels"], "modes": info["modes"], "tilts": info["tilts"], "line": l}
         with np.errstate(all="ignore"):
@@ -40,6 +40,17 @@ def run(ctx):
                 rt = model.reverse_transmission_reflection_for_path(path, rg, unit=unit)
                 vals[unit] = (None if t is None else complex(t[0, 0]), None if rt is None else complex(rt[0, 0]))
             # direct terms on the physically reversed path
+            if case_no % 3 == 0:
+                # history: the same Path object was traced before with other velocities (a calibration sweep), reversed then,
+                # and traced again since: the reversal is about the rays the path holds NOW
+                real = path.rays
+                fp = real.fermat_path
+                alt = ray.FermatPath(tuple(x * (1.0 + 0.09 * (k_ % 4)) if k_ % 2 else x for k_, x in enumerate(fp)))
+                path.rays = ray.Rays(np.array(real.times) * 1.07, np.array(real.interior_indices), alt)
+                stale = path.reverse()
+                ray.RayGeometry.from_path(stale).inc_leg_size(1)
+                path.rays = real
+                ctx.count("history:reversed_before_retracing")
             rev = path.reverse()
             rrg = ray.RayGeometry.from_path(rev)
             b_rev = float(model.beamspread_2d_for_path(rrg)[0, 0])
